@@ -305,17 +305,18 @@ func (r *Registry) GetHistogram(metricName string, labels prometheus.Labels, hel
 	var histogramVec *prometheus.HistogramVec
 	if vh == nil {
 		metricsCount.WithLabelValues("histogram").Inc()
-		buckets := r.Mapper.Defaults.HistogramOptions.Buckets
+		defaults := r.Mapper.GetDefaults()
+		buckets := defaults.HistogramOptions.Buckets
 		if mapping.HistogramOptions != nil && len(mapping.HistogramOptions.Buckets) > 0 {
 			buckets = mapping.HistogramOptions.Buckets
 		}
 
-		bucketFactor := r.Mapper.Defaults.HistogramOptions.NativeHistogramBucketFactor
+		bucketFactor := defaults.HistogramOptions.NativeHistogramBucketFactor
 		if mapping.HistogramOptions != nil && mapping.HistogramOptions.NativeHistogramBucketFactor > 0 {
 			bucketFactor = mapping.HistogramOptions.NativeHistogramBucketFactor
 		}
 
-		maxBuckets := r.Mapper.Defaults.HistogramOptions.NativeHistogramMaxBuckets
+		maxBuckets := defaults.HistogramOptions.NativeHistogramMaxBuckets
 		if mapping.HistogramOptions != nil && mapping.HistogramOptions.NativeHistogramMaxBuckets > 0 {
 			maxBuckets = mapping.HistogramOptions.NativeHistogramMaxBuckets
 		}
@@ -368,15 +369,16 @@ func (r *Registry) GetSummary(metricName string, labels prometheus.Labels, help 
 	var summaryVec *prometheus.SummaryVec
 	if vh == nil {
 		metricsCount.WithLabelValues("summary").Inc()
-		quantiles := r.Mapper.Defaults.SummaryOptions.Quantiles
+		defaults := r.Mapper.GetDefaults()
+		quantiles := defaults.SummaryOptions.Quantiles
 		if mapping != nil && mapping.SummaryOptions != nil && len(mapping.SummaryOptions.Quantiles) > 0 {
 			quantiles = mapping.SummaryOptions.Quantiles
 		}
 
 		summaryOptions := mapper.SummaryOptions{
-			MaxAge:     r.Mapper.Defaults.SummaryOptions.MaxAge,
-			AgeBuckets: r.Mapper.Defaults.SummaryOptions.AgeBuckets,
-			BufCap:     r.Mapper.Defaults.SummaryOptions.BufCap,
+			MaxAge:     defaults.SummaryOptions.MaxAge,
+			AgeBuckets: defaults.SummaryOptions.AgeBuckets,
+			BufCap:     defaults.SummaryOptions.BufCap,
 		}
 
 		if mapping != nil && mapping.SummaryOptions != nil {
